@@ -575,6 +575,13 @@ int main(int argc, char ** argv)
   run_type<Bundle<Galileid, V1d, SE_K_3<double, 2>>>(rep);
   run_type<Bundle<SO2d, V2d, C1d>>(rep);
   run_type<Bundle<SE3d>>(rep);
+#elif TS == 4
+  // thorough-tier extras: higher SE_K_3 orders, a six-member Bundle, deeper nesting
+  run_type<SE_K_3<double, 4>>(rep);
+  run_type<SE_K_3<float, 5>>(rep);
+  run_type<Bundle<SO2d, SO3d, SE2d, SE3d, C1d, V3d>>(rep);
+  run_type<Bundle<Bundle<Bundle<SO3d>, V1d>, SE3d>>(rep);
+  run_type<Bundle<V2d, V3d, V1d>>(rep);
 #endif
   rep.write();
   return 0;
